@@ -276,6 +276,12 @@ func checkC17(c *Case, trace bool) *CaseResult {
 	normal.Opts.Dry = false
 	for _, f := range normal.Fns {
 		f.Faults = nil
+		// some functions declare a concrete error type and return its nil value: a failure by Go's typed-nil
+		// rule, which the dry container has to report as well
+		if f.HasErr && f.Pool == 0 && (normal.Opts.RandSeed+int64(f.ID))%6 == 0 {
+			f.ErrType = 1
+			res.Stats["diff.concrete-error-type"]++
+		}
 	}
 	dry := normal.Clone()
 	dry.Opts.Dry = true
